@@ -144,3 +144,14 @@ Theorem coefficient_check_accepts_any_summation_tree :
                 (dy_dot (map dy_abs row) (map (fun x => dy_of_Z (Z.abs x)) d)) = true.
 Proof. exact coef_check_accepts_any_tree. Qed.
 Print Assumptions coefficient_check_accepts_any_summation_tree.
+
+(* The coefficient half of the projection part at the level of the checker (chk_coefs is what C13_check
+   runs on the reported coefficients): every row evaluated by some summation tree  ==>  accepted. *)
+Theorem coefficients_meet_definitions_all :
+  forall (P : list (list dy)) (d : list Z) (c : list dy),
+    (1 <= length d)%nat -> (zlen d < 2 ^ 52)%Z ->
+    Forall2 (fun row ci => length row = length d /\
+                           exists t, Permutation (leaf_list t) (pairsR row d) /\ dyR ci = evalf t) P c ->
+    chk_coefs (zlen d) P d c = true.
+Proof. exact coefficients_meet_all. Qed.
+Print Assumptions coefficients_meet_definitions_all.
